@@ -22,10 +22,11 @@ import (
 	"verif/gosym/interp"
 )
 
-const (
-	verifDir = "/verif"
-	repoDir  = "/repo"
-)
+const verifDir = "/verif"
+
+// repoDir is /repo in every registered command; VERIF_REPO points a development run
+// (a seeded change applied in a scratch worktree) at another checkout.
+var repoDir = envOr("VERIF_REPO", "/repo")
 
 type tierCfg struct {
 	Bounds      map[string]int
